@@ -6,6 +6,7 @@ import (
 	"database/sql"
 	"fmt"
 	"sort"
+	"strings"
 	"time"
 
 	"github.com/ethereum/go-ethereum/common"
@@ -387,6 +388,9 @@ func (n *simNet) trigger(i, r int) (errs string) {
 	select {
 	case r := <-ev.Result():
 		if r.Error != nil {
+			if strings.Contains(r.Error.Error(), "shares exist already") {
+				return "sharesexist" // ErrSharesAlreadySent reaches the event's result
+			}
 			return r.Error.Error()
 		}
 	case <-time.After(30 * time.Second):
